@@ -143,11 +143,18 @@ func fecDecode(lg *fecLogger, dec *fecDecoder, pkt []byte) (rec [][]byte, panick
 		lg.printf("d %s > panic\n", hx(pkt))
 		return
 	}
+	if len(rec) > 0 && dec.shouldTune {
+		fecEmittedWhileTuning++ // a decoder that knows its ratio is wrong hands nothing to the session (checked by the callers)
+	}
 	if lg.on {
 		lg.printf("d %s > %s | %s\n", hx(pkt), fecHexList(rec), fecDecState(dec))
 	}
 	return
 }
+
+// calls of decode that returned reconstructed packets while the decoder was (still) suspended for
+// re-tuning: under a layout it has already seen contradicted, anything it reconstructs is garbage
+var fecEmittedWhileTuning int
 
 // ------------------------------------------------------------------ sender side
 
@@ -867,6 +874,14 @@ func fecCaseConverge(lg *fecLogger, r *vrng, rep *vreport, id int, d, p, dr, pr 
 	if startKind == 0 {
 		off = 0 // the run starts with the very first packet of the sender
 	}
+	emitted0 := fecEmittedWhileTuning
+	defer func() {
+		rep.Monitors["suspended-decoder-emits-nothing"]++
+		if n := fecEmittedWhileTuning - emitted0; n > 0 {
+			fecViolate(rep, "C16/emits-while-suspended", fmt.Sprintf("sender %d/%d, receiver %d/%d: %d call(s) of decode returned reconstructed packets while the decoder was suspended for re-tuning (its layout already contradicted by a packet)", d, p, dr, pr, n),
+				map[string]any{"sender": []int{d, p}, "receiver": []int{dr, pr}, "seed": vSeed(), "case": id})
+		}
+	}()
 	preName := [...]string{"pre:none", "pre:own-lossy", "pre:own-older-lossy", "pre:junk-consistent", "pre:junk-wild"}[pre]
 	lg.on = lg.on && pre != 4 // wild junk: sort.Slice output is implementation defined (AutoTune.v): monitors only
 	lg.printf("C %d C16 converge s=%d/%d r=%d/%d %s %s off=%d\n", id, d, p, dr, pr, startName, preName, off)
